@@ -408,8 +408,17 @@ func genDefaultTree(propName string) (spec.Schema, bool) {
 		return 1.0
 	}
 	root := spec.Schema{}
-	kind := verifChoose(6)
+	kind := verifChoose(6 + 2*verifTier())
 	switch kind {
+	case 6: // thorough: tuple items, each position with its own default
+		root.Items = &spec.SchemaOrArray{Schemas: []spec.Schema{numSchemaMax(2, pick()), numSchemaMax(2, pick())}}
+	case 7: // thorough: three levels: property -> items -> additionalProperties
+		leaf := numSchemaMax(2, pick())
+		mid := spec.Schema{}
+		mid.AdditionalProperties = &spec.SchemaOrBool{Allows: true, Schema: &leaf}
+		arr := spec.Schema{}
+		arr.Items = &spec.SchemaOrArray{Schema: &mid}
+		root.Properties = map[string]spec.Schema{propName: arr, "o": numSchemaMax(2, pick())}
 	case 0:
 		root = numSchemaMax(2, pick())
 	case 1:
@@ -429,7 +438,7 @@ func genDefaultTree(propName string) (spec.Schema, bool) {
 	}
 	if kind > 0 && verifBool() {
 		// the container also declares the type its keywords apply to (for allOf: the scalar type of its member)
-		root.Type = spec.StringOrArray{[]string{"", "object", "array", "object", "number", "object"}[kind]}
+		root.Type = spec.StringOrArray{[]string{"", "object", "array", "object", "number", "object", "array", "object"}[kind]}
 	}
 	return root, bad
 }
@@ -899,5 +908,58 @@ func HarnessC12Spec() {
 	verifFreeze(ops, "operations")
 	_, _ = s.Validate(s.spec)
 	verifUnfreeze()
+	verifReach("end")
+}
+
+// HarnessC03Patterns: the "valid patterns" rule: one regular expression that does not compile,
+// placed by the solver in one of the places a specification can carry a pattern (or nowhere),
+// next to valid patterns everywhere else; the whole Validate must report an error exactly then,
+// in both continue-on-errors modes.
+func HarnessC03Patterns() {
+	place := verifChoose(10)
+	pat := func(i int) string {
+		if place == i {
+			return []string{"(", "[a-", "a{2,1}"}[verifChoose(3)]
+		}
+		return []string{"", "^a+$"}[i%2] // elsewhere: absent or valid
+	}
+	sw := &spec.Swagger{}
+	def := schemaOfType("string")
+	def.Pattern = pat(1)
+	obj := schemaOfType("object")
+	prop := schemaOfType("string")
+	prop.Pattern = pat(2)
+	el := schemaOfType("string")
+	el.Pattern = pat(3)
+	arr := schemaOfType("array")
+	arr.Items = &spec.SchemaOrArray{Schema: &el}
+	obj.Properties = map[string]spec.Schema{"p": prop, "list": arr}
+	sw.Definitions = spec.Definitions{"S": def, "O": obj}
+	op := &spec.Operation{}
+	op.ID = "op"
+	bodySch := schemaOfType("string")
+	bodySch.Pattern = pat(4)
+	q := spec.QueryParam("q").CollectionOf(spec.NewItems().Typed("string", ""), "csv")
+	q.Items.Pattern = pat(5)
+	single := spec.QueryParam("r").Typed("string", "")
+	single.Pattern = pat(6)
+	op.Parameters = []spec.Parameter{*spec.BodyParam("b", &bodySch), *q, *single}
+	respSch := schemaOfType("string")
+	respSch.Pattern = pat(7)
+	h := spec.ResponseHeader().Typed("string", "")
+	h.Pattern = pat(8)
+	hArr := spec.ResponseHeader().CollectionOf(spec.NewItems().Typed("string", ""), "csv")
+	hArr.Items.Pattern = pat(9)
+	resp := spec.Response{}
+	resp.Description = "ok"
+	resp.Schema = &respSch
+	resp.Headers = map[string]spec.Header{"X": *h, "Y": *hArr}
+	op.Responses = &spec.Responses{}
+	op.Responses.StatusCodeResponses = map[int]spec.Response{200: resp}
+	ops := map[string]map[string]*spec.Operation{"POST": {"/p": op}}
+	cont := verifBool()
+	errs, _ := runWholeValidate(sw, ops, cont)
+	verifObserve("valid", errs.valid)
+	verifAssert(errs.valid == (place == 0), "invalid-pattern-is-an-error-and-only-then")
 	verifReach("end")
 }
